@@ -64,8 +64,8 @@ class Spy(_Spy):
 def snapshot(sim):
     ags = []
     for a in sim.agents.values():
-        pos = getattr(a, "_position", None)
-        h = getattr(a, "_health", 0)
+        pos = G.pub(a, "position")
+        h = G.pub(a, "health", 0)
         ht = int(round(h * HD))
         assert abs(ht - h * HD) < 1e-9, "health is not a multiple of 2^-20"
         ags.append([a.encoding, [int(pos[0]), int(pos[1])] if pos is not None else [], ht,
@@ -74,7 +74,7 @@ def snapshot(sim):
     cells = []
     for r in range(sim.grid.rows):
         for c in range(sim.grid.cols):
-            d = sim.grid._internal[r, c]
+            d = sim.grid[r, c]
             cells.append([idx[k] for k in d.keys()] if d else [])
     return [ags, cells]
 
